@@ -1023,17 +1023,20 @@ func computeWildcardHostVirtualServiceIndex(virtualServices []*config.Config, se
 	for _, vs := range virtualServices {
 		v := vs.Spec.(*networking.VirtualService)
 		for _, h := range v.Hosts {
+			// Hostnames are case-insensitive: the route builder that reads this index looks VirtualService hosts and
+			// services up by lower-cased hostname, so the index is computed over (and keyed by) lower-cased hostnames.
+			h := host.Name(strings.ToLower(h))
 			// We may have duplicate (not just overlapping) hosts; assume the list of VS is sorted already
 			// and never overwrite existing entries
-			if host.Name(h).IsWildCarded() {
-				_, exists := wildcardVirtualServiceHostIndex[host.Name(h)]
+			if h.IsWildCarded() {
+				_, exists := wildcardVirtualServiceHostIndex[h]
 				if !exists {
-					wildcardVirtualServiceHostIndex[host.Name(h)] = vs
+					wildcardVirtualServiceHostIndex[h] = vs
 				}
 			} else {
-				_, exists := fqdnVirtualServiceHostIndex[host.Name(h)]
+				_, exists := fqdnVirtualServiceHostIndex[h]
 				if !exists {
-					fqdnVirtualServiceHostIndex[host.Name(h)] = vs
+					fqdnVirtualServiceHostIndex[h] = vs
 				}
 			}
 		}
@@ -1041,12 +1044,13 @@ func computeWildcardHostVirtualServiceIndex(virtualServices []*config.Config, se
 
 	mostSpecificWildcardVsIndex := make(map[host.Name]types.NamespacedName)
 	for _, svc := range services {
-		_, ref, exists := MostSpecificHostMatch(svc.Hostname, fqdnVirtualServiceHostIndex, wildcardVirtualServiceHostIndex)
+		hostname := host.Name(strings.ToLower(string(svc.Hostname)))
+		_, ref, exists := MostSpecificHostMatch(hostname, fqdnVirtualServiceHostIndex, wildcardVirtualServiceHostIndex)
 		if !exists {
 			// This svc doesn't have a virtualService; skip
 			continue
 		}
-		mostSpecificWildcardVsIndex[svc.Hostname] = ref.NamespacedName()
+		mostSpecificWildcardVsIndex[hostname] = ref.NamespacedName()
 	}
 
 	return mostSpecificWildcardVsIndex
